@@ -359,6 +359,8 @@ def run_pt(sc, sched, canonical=False, want_trace=False):
                 t0 = sim.now
                 name = op[0]
                 stats["op_" + name] += 1
+                if name in ("take_steps", "advance") and (op[1] if name == "take_steps" else min(op[1], op[2])) > 500:
+                    stats["probe_worker_command_of_more_than_500_steps"] += 1
                 if name == "take_steps":
                     L('take_steps', pt.take_steps, op[1])
                     expected = None if expected is None else [e + op[1] for e in expected]
